@@ -46,6 +46,18 @@ def run(payload):
 
 
 def main():
+    if len(sys.argv) > 1 and sys.argv[1] == '--server':
+        for line in sys.stdin:
+            line = line.strip()
+            if not line:
+                continue
+            try:
+                out = run(json.loads(line))
+            except BaseException as e:
+                out = dict(error=repr(e))
+            sys.stdout.write('REPLAY-RESULT ' + json.dumps(out) + '\n')
+            sys.stdout.flush()
+        return 0
     if len(sys.argv) > 1 and sys.argv[1] == '--stdin':
         payload = json.loads(sys.stdin.read())
         print('REPLAY-RESULT ' + json.dumps(run(payload)))
